@@ -2,6 +2,7 @@
 //!
 //! `ckbmc check <ID> --tier quick|thorough [--replay file]`   orchestrator (spawns shard workers)
 //! `ckbmc worker <ID> --tier T --shard i --of n --out file`   one shard, writes a partial report
+mod chainstate;
 mod core;
 mod forge;
 mod node;
